@@ -141,6 +141,12 @@ impl PropResult {
             self.violations.push(v);
         }
     }
+    /// Records an actual case of this run as a sample (the first two per work shard).
+    pub fn sample(&mut self, f: impl FnOnce() -> J) {
+        if self.samples.len() < 2 {
+            self.samples.push(f());
+        }
+    }
     pub fn cov(&mut self, k: &str, v: impl Into<J>) {
         self.coverage.push((k.to_string(), v.into()));
     }
